@@ -13,6 +13,8 @@ KINDS = ["fut_ret", "fut_raise", "const", "errfut", "at0_ret", "at0_raise", "at1
 OPS = [("value",), ("error",), ("call",), ("is_computed",), ("set_value", "v1"), ("set_value", "v2"),
        ("set_error", "e1"), ("set_error", "e2"), ("reset_unsafe",), ("sub", "good"), ("sub", "bad"),
        ("sub", "oneshot")]  # oneshot: a well-behaved callback that unsubscribes itself when notified
+# a task awaits the future through the scheduler: `yield f` / `yield f, f` (the future is on the scheduler's stack twice)
+AWAIT = [("await", 1), ("await", 2)]
 TAIL = [("is_computed",), ("error",), ("value",), ("call",), ("set_value", "v2"), ("set_error", "e2"),
         ("is_computed",), ("value",), ("error",)]
 DEPTH = {"quick": 5, "thorough": 7}
@@ -20,8 +22,9 @@ RULE = ("for each of 18 object kinds (Future with returning / raising provider, 
         "without a yield returning / raising, AsyncTask yielding one harness batch item then returning / raising, "
         "harness BatchBase subclass with returning / raising flush body, harness batch item whose batch sets its value / "
         "its error; each of the 6 failing kinds also with an exception whose truth value is False; e2 is such an "
-        "exception too) ALL histories over the 12-operation alphabet {value(), error(), f(), is_computed(), set_value(v1|v2), "
-        "set_error(e1|e2), reset_unsafe(), subscribe well-behaved callback, subscribe callback raising Exception, subscribe one-shot callback that unsubscribes itself when notified} up to "
+        "exception too) ALL histories over the 14-operation alphabet {value(), error(), f(), is_computed(), set_value(v1|v2), "
+        "set_error(e1|e2), reset_unsafe(), a task awaiting the future through the scheduler with `yield f` / `yield f, f` "
+        "(not offered while the future is uncomputed and has no computation left), subscribe well-behaved callback, subscribe callback raising Exception, subscribe one-shot callback that unsubscribes itself when notified} up to "
         "length 5 (quick) / 7 (thorough) are explored breadth-first on fresh real objects, merging histories only when "
         "(R4 state, is_computed(), _value, _error, per-subscriber notification counts, provider run count, generator / "
         "batch residue) coincide; every executed history is followed by a fixed 9-operation probe tail on the same live "
@@ -41,6 +44,8 @@ ASSUMPTIONS = [
     "ConstFuture/ErrorFuture use a sinking event hook: subscribing is a no-op by design, notification is not judged for them",
     "what a future without a (remaining) computation does when asked for its value after reset_unsafe() is not judged; "
     "whatever outcome it then takes must be reported consistently from then on",
+    "the await operations run a fresh one-statement task on the thread's scheduler; the answer judged is what that task "
+    "receives from its yield (value, pair of values, or the error thrown into it)",
     "a raising subscriber raises an Exception subclass (BaseException subscribers are outside the statement)",
 ]
 
@@ -105,10 +110,17 @@ def _harness():
             w.trouble.append(("yield-value", "task received %r from its yield" % (got,)))
         return w.finish_run(n, raising)
 
+    @asynq.asynq()
+    def aw(f, twice):
+        if twice:
+            return (yield f, f)
+        return (yield f)
+
     class NS(object):
         pass
 
     _H = NS()
+    _H.aw = aw
     _H.asynq = asynq
     _H.HB, _H.HI, _H.t0, _H.t1 = HB, HI, t0, t1
     _H.none = _none
@@ -282,8 +294,19 @@ class World(object):
     def nontrivial(self):
         return self.m.st is not None or bool(self.m.subs)
 
+    def can_await(self):
+        """awaiting an uncomputed future that has no computation left never ends (item of a flushed batch after
+        reset_unsafe()) or is undefined (reset ConstFuture): the statement says nothing about that, not offered"""
+        if self.m.st is not None:
+            return True
+        if self.kind in ("const", "errfut"):
+            return False
+        if self.kind.startswith("item"):
+            return not self.obj.batch.is_computed()
+        return True
+
     def menu(self):
-        return OPS
+        return OPS + AWAIT if self.can_await() else OPS
 
     def tail(self):
         return TAIL
@@ -306,6 +329,8 @@ class World(object):
             return call(f.set_error, self.errs[op[1]])
         if name == "reset_unsafe":
             return call(f.reset_unsafe)
+        if name == "await":
+            return call(self.H.aw, f, op[1] == 2)
         if name == "sub":
             return call(f.on_computed.subscribe, self._cb(len(self.m.subs), op[1]))
         raise ValueError(op)
@@ -367,12 +392,15 @@ class World(object):
             if name == "error":
                 ok = r == ("ret", None) if st[0] == "v" else r == ("ret", st[1])
                 exp = "return None" if st[0] == "v" else "return %r" % (st[1],)
+            elif name == "await" and op[1] == 2 and st[0] == "v":
+                ok = r == ("ret", ("tuple", st[1], st[1]))
+                exp = "the awaiting task receives (%r, %r)" % (st[1], st[1])
             else:
                 ok = r == (("ret", st[1]) if st[0] == "v" else ("exc", st[1]))
                 exp = ("return %r" if st[0] == "v" else "raise %r") % (st[1],)
             return ok, exp
 
-        if name in ("value", "error", "call"):
+        if name in ("value", "error", "call", "await"):
             if before is not None:
                 self._stat("judged: reports on a computed future")
                 ok, exp = report(before)
@@ -465,5 +493,5 @@ def replay(case, env):
 
 
 def finish(acc, tier):
-    return {"bounds": {"history length": DEPTH[tier], "operations": len(OPS), "probe tail": len(TAIL),
+    return {"bounds": {"history length": DEPTH[tier], "operations": len(OPS) + len(AWAIT), "probe tail": len(TAIL),
                        "object kinds": KINDS}}
